@@ -26,6 +26,19 @@ THEOREMS = ["DAVerif." + t for t in (
     "C05_catalog_covered", "C05_provable_covered",
     # group aggregates, window functions and aggregate formatters (Props/C05agg.lean)
     "C05_max_pandas", "C05_min_pandas", "C05_max_sqlite", "C05_min_sqlite", "C05_max_documented_is_greatest", "C05_min_documented_is_least", "C05_max_min_no_item_agree", "C05_nunique_pandas", "C05_nunique_sqlite", "C05_nunique_documented_counts_distinct", "C05_median_pandas", "C05_median_sqlite", "C05_median_documented_is_middle", "C05_var_pandas", "C05_var_sqlite", "C05_any_value_sqlite", "C05_pandas_agg_full", "C05_sqlite_agg_full_partial", "C05_S_groupOp_necessary", "C05_agg_backends_agree", "C05_first_pandas", "C05_last_pandas", "C05_silent_first_last_missing_end", "C05_ffill_pandas", "C05_bfill_pandas", "C05_rank_pandas", "C05_silent_rank_tie", "C05_pandas_win_full_partial", "C05_sqlite_win_full_partial", "C05_formatter_count", "C05_formatter_size", "C05_formatter_mean", "C05_formatter_any", "C05_formatter_all", "C05_formatter_any_value", "C05_formatter_NoStr_necessary", "C05_formatter_all_skips_null", "C05_modelled_now_proved", "C05_provable_all_proved")]
+# further theorems of these modules (supporting / intermediate statements of the property theorems above): audited
+# for axioms on every run like the rest
+THEOREMS += [
+    "DAVerif.C05_ffill_documented_is_nearest_before",
+    "DAVerif.C05_ffill_documented_missing_before",
+    "DAVerif.C05_bfill_documented_is_nearest_after",
+    "DAVerif.C05_formatter_count_doc",
+    "DAVerif.C05_formatter_size_doc",
+    "DAVerif.C05_formatter_mean_doc",
+    "DAVerif.C05_formatter_any_doc",
+    "DAVerif.C05_formatter_all_doc",
+    "DAVerif.C05_formatter_any_value_doc",
+]
 ASSUMPTIONS = [
     "the docstrings of expr_rep.Term are read as transcribed in lean/DAVerif/Spec/DocSem.lean (each clause quotes its "
     "docstring; operators without docstring = the Python operator on values of one kind); `none` = the documentation names "
